@@ -111,10 +111,14 @@ class Outcome:
                 print(f"(replay: {len(other)} other signature(s) seen in the same run are not part of this replay: {other[:5]})")
             self.violations = [(s, d) for s, d in self.violations if s == self.only_signature]
         known, _fixed = load_known_findings()
-        for sig, n in sorted(self.known_hits.items()):
-            desc = next((k.get("description", "") for k in known
-                         if k["property"] == self.prop and k["signature"] == sig), "")
-            print(f"KNOWN-FINDING: property={self.prop} {sig} ({n} occurrence(s)) {desc}")
+        if self.only_signature is None:
+            # every finding listed for this property is recalled, met in this run or not (a listed finding suppresses exactly
+            # its own signature; anything else is a VIOLATION)
+            for k in known:
+                if k["property"] == self.prop:
+                    n = self.known_hits.get(k["signature"], 0)
+                    print(f"KNOWN-FINDING: property={self.prop} {k['signature']} ({n} occurrence(s) in this run) "
+                          f"{k.get('description', '')}")
         vio_dir = os.path.join(WORK_ROOT, "violations")
         seen = set()
         for sig, detail in self.violations:
